@@ -328,7 +328,7 @@ def ref_asdict(ctx: Ctx) -> RuleResult:
     return r
 
 
-def _if_chains(fn: ast.AST, guard_clauses: bool = True) -> Dict[int, Tuple[Tuple[ast.AST, bool], ...]]:
+def _if_chains(fn: ast.AST, guard_clauses: bool = False) -> Dict[int, Tuple[Tuple[ast.AST, bool], ...]]:
     out: Dict[int, Tuple[Tuple[ast.AST, bool], ...]] = {}
 
     def _leaves(stmts) -> bool:
